@@ -45,18 +45,28 @@ Theorem C11_gunitary_any_enumeration :
 Proof. exact gu_correct_enum. Qed.
 Print Assumptions C11_gunitary_any_enumeration.
 
-(* gaussian_unitary as returned (registers sorted): same action as the source, PROVIDED the set
-   enumeration is already sorted and no command carries a dagger flag (gu_wf).  Both provisos are
-   necessary for the current code: see the two refutations below. *)
+(* gaussian_unitary as returned (used_modes = sorted(set(..)), registers sorted): for EVERY enumeration
+   `used` the set may produce, every accepted command list, WITH or WITHOUT dagger flags, the
+   compiled program has the action of the source.  (Full; the two former exclusions are gone since
+   the fix commits bc7648a / f18521d.) *)
 Theorem C11_gunitary :
   forall (K : Type) (k0 k1 : K) (kadd kmul ksub : K -> K -> K) (kopp : K -> K) (two half : K),
   ring_theory k0 k1 kadd kmul ksub kopp eq ->
-  forall (enum : list nat) (cmds : list (gu_cmd K)) (st : nat -> K),
-  NoDup enum -> Forall (gu_wf K k0 k1 kadd kmul ksub kopp half enum) cmds -> sort enum = enum ->
-  forall x, g_denote K k0 kadd kmul (gu_output K (gu_compile K k0 k1 kadd kmul ksub kopp two half enum cmds)) st x
+  forall (used : list nat) (cmds : list (gu_cmd K)) (st : nat -> K),
+  NoDup used -> Forall (gu_wf K k0 k1 kadd kmul ksub kopp half used) cmds ->
+  forall x, g_denote K k0 kadd kmul (gu_output K (gu_compile K k0 k1 kadd kmul ksub kopp two half used cmds)) st x
           = g_denote K k0 kadd kmul (map (gu_sem K k0 k1 kadd kmul ksub kopp two half) cmds) st x.
 Proof. exact gu_correct. Qed.
 Print Assumptions C11_gunitary.
+
+(* the compiled program depends only on the SET of used modes, not on its enumeration *)
+Theorem C11_gunitary_order_independent :
+  forall (K : Type) (k0 k1 : K) (kadd kmul ksub : K -> K -> K) (kopp : K -> K) (two half : K)
+         (used used' : list nat) (cmds : list (gu_cmd K)),
+  sort used = sort used' ->
+  gu_compile K k0 k1 kadd kmul ksub kopp two half used cmds = gu_compile K k0 k1 kadd kmul ksub kopp two half used' cmds.
+Proof. exact gu_compile_order_independent. Qed.
+Print Assumptions C11_gunitary_order_independent.
 
 Theorem C11_passive_any_enumeration :
   forall (K : Type) (k0 k1 : K) (kadd kmul ksub : K -> K -> K) (kopp : K -> K) (half : K)
@@ -73,10 +83,10 @@ Print Assumptions C11_passive_any_enumeration.
 Theorem C11_passive :
   forall (K : Type) (k0 k1 : K) (kadd kmul ksub : K -> K -> K) (kopp : K -> K) (half : K)
          (Kth : ring_theory k0 k1 kadd kmul ksub kopp eq),
-  forall (enum : list nat) (cmds : list (pa_cmd K)) (st : nat -> C K),
-  NoDup enum -> Forall (pa_wf K k0 k1 kadd kmul ksub kopp half enum) cmds -> sort enum = enum ->
+  forall (used : list nat) (cmds : list (pa_cmd K)) (st : nat -> C K),
+  NoDup used -> Forall (pa_wf K k0 k1 kadd kmul ksub kopp half used) cmds ->
   forall x, g_denote (C K) (c0 K k0) (cadd K kadd) (cmul K kadd kmul ksub)
-              (pa_output K (pa_compile K k0 k1 kadd kmul ksub kopp half enum cmds)) st x
+              (pa_output K (pa_compile K k0 k1 kadd kmul ksub kopp half used cmds)) st x
           = g_denote (C K) (c0 K k0) (cadd K kadd) (cmul K kadd kmul ksub)
               (map (pa_sem K k0 k1 kadd kmul ksub kopp half) cmds) st x.
 Proof. exact pa_correct. Qed.
@@ -89,8 +99,8 @@ Theorem C11_merge_validator_sound_partial :
 Proof. exact check_merge_sound. Qed.
 Print Assumptions C11_merge_validator_sound_partial.
 
-(* ---- hypotheses are satisfiable; refutations of the two excluded cases (K := Z) ---- *)
-Definition Zgu := gu_compile Z 0%Z 1%Z Z.add Z.mul Z.sub Z.opp 2%Z 1%Z.
+(* ---- hypotheses are satisfiable (K := Z), with an unsorted enumeration and a dagger flag ---- *)
+Definition Zgu_old := gu_compile_old Z 0%Z 1%Z Z.add Z.mul Z.sub Z.opp 2%Z 1%Z.
 Definition Zsem := gu_sem Z 0%Z 1%Z Z.add Z.mul Z.sub Z.opp 2%Z 1%Z.
 Definition Zden := g_denote Z 0%Z Z.add Z.mul.
 Definition Zwf := gu_wf Z 0%Z 1%Z Z.add Z.mul Z.sub Z.opp 1%Z.
@@ -100,32 +110,33 @@ Definition probe : nat -> Z := fun c => Z.of_nat (c + 1).
 
 Ltac nodup := repeat (apply NoDup_cons; [simpl; intuition discriminate|]); apply NoDup_nil.
 Ltac wf1 := unfold Zwf, gu_wf; simpl; split; [nodup|]; split;
-            [intros x [H|[]]; subst; simpl; auto|]; split; reflexivity.
+            [intros x [H|[]]; subst; simpl; auto|]; reflexivity.
 
 Example C11_hypotheses_satisfiable :
-  NoDup [1; 8] /\ Forall (Zwf [1; 8]) [rot 1 false; rot 8 false] /\ sort [1; 8] = [1; 8].
+  NoDup [8; 1] /\ Forall (Zwf [8; 1]) [rot 1 true; rot 8 false].
 Proof.
-  split; [nodup|]. split; [|reflexivity].
+  split; [nodup|].
   apply Forall_cons; [wf1|]. apply Forall_cons; [wf1|]. apply Forall_nil.
 Qed.
 
-(* set order: used modes {1, 8} enumerate as [8; 1]; the rows of Snet follow that order while the
-   returned registers are sorted -> the rotation lands on mode 8 instead of mode 1 *)
-Theorem C11_gunitary_set_order_refuted :
+(* ---- refutations of the behaviour BEFORE the fix commits (definitions *_old) ---- *)
+(* set order: used modes {1, 8} enumerate as [8; 1]; the rows of Snet followed that order while the
+   returned registers were sorted -> the rotation landed on mode 8 instead of mode 1 *)
+Theorem C11_gunitary_old_set_order_refuted :
   exists (enum : list nat) (cmds : list (gu_cmd Z)) (st : nat -> Z) (x : nat),
     NoDup enum /\ Forall (Zwf enum) cmds /\
-    Zden (gu_output Z (Zgu enum cmds)) st x <> Zden (map Zsem cmds) st x.
+    Zden (gu_output Z (Zgu_old enum cmds)) st x <> Zden (map Zsem cmds) st x.
 Proof.
   exists [8; 1], [rot 1 false; mkGU Z 8 [] [[1%Z; 0%Z]; [0%Z; 1%Z]] [] [8] false], probe, 2.
   split; [nodup|].
   split; [apply Forall_cons; [wf1|]; apply Forall_cons; [wf1|]; apply Forall_nil|].
   vm_compute. discriminate.
 Qed.
-Print Assumptions C11_gunitary_set_order_refuted.
+Print Assumptions C11_gunitary_old_set_order_refuted.
 
-(* dagger: Rgate(pi/2).H compiles to the matrix of Rgate(pi/2) *)
-Theorem C11_gunitary_dagger_refuted :
+(* dagger: Rgate(pi/2).H was compiled to the matrix of Rgate(pi/2) *)
+Theorem C11_gunitary_old_dagger_refuted :
   exists (cmds : list (gu_cmd Z)) (st : nat -> Z) (x : nat),
-    Zden (gu_output Z (Zgu [0] cmds)) st x <> Zden (map Zsem cmds) st x.
+    Zden (gu_output Z (Zgu_old [0] cmds)) st x <> Zden (map Zsem cmds) st x.
 Proof. exists [rot 0 true], probe, 0. vm_compute. discriminate. Qed.
-Print Assumptions C11_gunitary_dagger_refuted.
+Print Assumptions C11_gunitary_old_dagger_refuted.
